@@ -247,66 +247,6 @@ Theorem C23_C_TRUESDELL_from_DTAU_DF : forall a b c d : nat -> R,
 Proof. intros; exact (conj (C_TRUESDELL_from_DTAU_DF_1_ok a b c d) (conj (C_TRUESDELL_from_DTAU_DF_2_ok a b c d) (C_TRUESDELL_from_DTAU_DF_3_ok a b c d))). Qed.
 Print Assumptions C23_C_TRUESDELL_from_DTAU_DF.
 
-Theorem C23_DS_DEGL_from_SPATIAL_MODULI : forall a b c d : nat -> R,
-  (det2 (full_t 1%nat c) <> 0 -> DS_DEGL_from_SPATIAL_MODULI_1 a b c d = flat_A 1%nat (spec_DS_DEGL_from_SPATIAL_MODULI 1%nat (full_A 1%nat a) (full_t 1%nat b) (full_t 1%nat c) (full_s 1%nat d))).
-Proof. intros; exact DS_DEGL_from_SPATIAL_MODULI_1_ok a b c d. Qed.
-Print Assumptions C23_DS_DEGL_from_SPATIAL_MODULI.
-
-Theorem C23_DTAU_DF_from_DS_DF : forall a b c d : nat -> R,
-  (det2 (full_t 1%nat c) <> 0 -> DTAU_DF_from_DS_DF_1 a b c d = flat_C 1%nat (spec_DTAU_DF_from_DS_DF 1%nat (full_C 1%nat a) (full_t 1%nat b) (full_t 1%nat c) (full_s 1%nat d))).
-Proof. intros; exact DTAU_DF_from_DS_DF_1_ok a b c d. Qed.
-Print Assumptions C23_DTAU_DF_from_DS_DF.
-
-Theorem C23_DTAU_DF_from_C_TAU_JAUMANN : forall a b c d : nat -> R,
-  (det2 (full_t 1%nat c) <> 0 -> DTAU_DF_from_C_TAU_JAUMANN_1 a b c d = flat_C 1%nat (spec_DTAU_DF_from_C_TAU_JAUMANN 1%nat (full_A 1%nat a) (full_t 1%nat b) (full_t 1%nat c) (full_s 1%nat d))).
-Proof. intros; exact DTAU_DF_from_C_TAU_JAUMANN_1_ok a b c d. Qed.
-Print Assumptions C23_DTAU_DF_from_C_TAU_JAUMANN.
-
-Theorem C23_DTAU_DF_from_ABAQUS : forall a b c d : nat -> R,
-  (det2 (full_t 1%nat c) <> 0 -> DTAU_DF_from_ABAQUS_1 a b c d = flat_C 1%nat (spec_DTAU_DF_from_ABAQUS 1%nat (full_A 1%nat a) (full_t 1%nat b) (full_t 1%nat c) (full_s 1%nat d))).
-Proof. intros; exact DTAU_DF_from_ABAQUS_1_ok a b c d. Qed.
-Print Assumptions C23_DTAU_DF_from_ABAQUS.
-
-Theorem C23_DTAU_DF_from_SPATIAL_MODULI : forall a b c d : nat -> R,
-  (det2 (full_t 1%nat c) <> 0 -> DTAU_DF_from_SPATIAL_MODULI_1 a b c d = flat_C 1%nat (spec_DTAU_DF_from_SPATIAL_MODULI 1%nat (full_A 1%nat a) (full_t 1%nat b) (full_t 1%nat c) (full_s 1%nat d))).
-Proof. intros; exact DTAU_DF_from_SPATIAL_MODULI_1_ok a b c d. Qed.
-Print Assumptions C23_DTAU_DF_from_SPATIAL_MODULI.
-
-Theorem C23_DSIG_DF_from_DS_DEGL : forall a b c d : nat -> R,
-  (det2 (full_t 1%nat c) <> 0 -> DSIG_DF_from_DS_DEGL_1 a b c d = flat_C 1%nat (spec_DSIG_DF_from_DS_DEGL 1%nat (full_A 1%nat a) (full_t 1%nat b) (full_t 1%nat c) (full_s 1%nat d))).
-Proof. intros; exact DSIG_DF_from_DS_DEGL_1_ok a b c d. Qed.
-Print Assumptions C23_DSIG_DF_from_DS_DEGL.
-
-Theorem C23_DSIG_DF_from_C_TRUESDELL : forall a b c d : nat -> R,
-  (det2 (full_t 1%nat c) <> 0 -> DSIG_DF_from_C_TRUESDELL_1 a b c d = flat_C 1%nat (spec_DSIG_DF_from_C_TRUESDELL 1%nat (full_A 1%nat a) (full_t 1%nat b) (full_t 1%nat c) (full_s 1%nat d))).
-Proof. intros; exact DSIG_DF_from_C_TRUESDELL_1_ok a b c d. Qed.
-Print Assumptions C23_DSIG_DF_from_C_TRUESDELL.
-
-Theorem C23_DSIG_DF_from_ABAQUS : forall a b c d : nat -> R,
-  (det2 (full_t 1%nat c) <> 0 -> DSIG_DF_from_ABAQUS_1 a b c d = flat_C 1%nat (spec_DSIG_DF_from_ABAQUS 1%nat (full_A 1%nat a) (full_t 1%nat b) (full_t 1%nat c) (full_s 1%nat d))).
-Proof. intros; exact DSIG_DF_from_ABAQUS_1_ok a b c d. Qed.
-Print Assumptions C23_DSIG_DF_from_ABAQUS.
-
-Theorem C23_DPK1_DF_from_DSIG_DF : forall a b c d : nat -> R,
-  (det2 (full_t 1%nat c) <> 0 -> DPK1_DF_from_DSIG_DF_1 a b c d = flat_B 1%nat (spec_DPK1_DF_from_DSIG_DF 1%nat (full_C 1%nat a) (full_t 1%nat b) (full_t 1%nat c) (full_s 1%nat d))).
-Proof. intros; exact DPK1_DF_from_DSIG_DF_1_ok a b c d. Qed.
-Print Assumptions C23_DPK1_DF_from_DSIG_DF.
-
-Theorem C23_DTAU_DF_from_DPK1_DF : forall a b c d : nat -> R,
-  (det2 (full_t 1%nat c) <> 0 -> DTAU_DF_from_DPK1_DF_1 a b c d = flat_C 1%nat (spec_DTAU_DF_from_DPK1_DF 1%nat (full_B 1%nat a) (full_t 1%nat b) (full_t 1%nat c) (full_s 1%nat d))).
-Proof. intros; exact DTAU_DF_from_DPK1_DF_1_ok a b c d. Qed.
-Print Assumptions C23_DTAU_DF_from_DPK1_DF.
-
-Theorem C23_DSIG_DF_from_DPK1_DF : forall a b c d : nat -> R,
-  (det2 (full_t 1%nat c) <> 0 -> DSIG_DF_from_DPK1_DF_1 a b c d = flat_C 1%nat (spec_DSIG_DF_from_DPK1_DF 1%nat (full_B 1%nat a) (full_t 1%nat b) (full_t 1%nat c) (full_s 1%nat d))).
-Proof. intros; exact DSIG_DF_from_DPK1_DF_1_ok a b c d. Qed.
-Print Assumptions C23_DSIG_DF_from_DPK1_DF.
-
-Theorem C23_DPK1_DF_from_DS_DEGL : forall a b c d : nat -> R,
-  (det2 (full_t 1%nat c) <> 0 -> DPK1_DF_from_DS_DEGL_1 a b c d = flat_B 1%nat (spec_DPK1_DF_from_DS_DEGL 1%nat (full_A 1%nat a) (full_t 1%nat b) (full_t 1%nat c) (full_s 1%nat d))).
-Proof. intros; exact DPK1_DF_from_DS_DEGL_1_ok a b c d. Qed.
-Print Assumptions C23_DPK1_DF_from_DS_DEGL.
-
 Theorem C23_rt_DS_DEGL_DS_DC : forall a b c d : nat -> R,
   (rt_DS_DEGL_DS_DC_1 a b c d = flat_A 1%nat (spec_rt_DS_DEGL_DS_DC 1%nat (full_A 1%nat a) (full_t 1%nat b) (full_t 1%nat c) (full_s 1%nat d))) /\
   (rt_DS_DEGL_DS_DC_2 a b c d = flat_A 2%nat (spec_rt_DS_DEGL_DS_DC 2%nat (full_A 2%nat a) (full_t 2%nat b) (full_t 2%nat c) (full_s 2%nat d))) /\
